@@ -33,13 +33,18 @@ fn is_identifier(s: &str) -> bool {
 enum Text {
     /// the token's text (identifier) or None when the character there cannot start one
     Known(Option<String>),
-    /// column splits a surrogate pair, points at whitespace, or lies past the line: crash-freedom only
+    /// column splits a surrogate pair or points at whitespace: crash-freedom only
     Unspecified,
 }
 
 /// token text at a UTF-16 column of a line
 fn token_text(line: Option<&str>, col: u32) -> Text {
-    let Some(line) = line else { return Text::Unspecified };
+    // a token on a missing line or at / past the end of its line has no text
+    let Some(line) = line else { return Text::Known(None) };
+    let total: u32 = line.chars().map(|c| c.len_utf16() as u32).sum();
+    if col >= total {
+        return Text::Known(None);
+    }
     let mut unit = 0u32;
     for (bi, ch) in line.char_indices() {
         if unit == col {
@@ -220,7 +225,12 @@ fn candidate_columns(program: &str) -> Vec<(u32, u32)> {
             in_word = is_continue(ch) && !in_string;
             unit += ch.len_utf16() as u32;
         }
+        // tokens pointing at and past the end of the line
+        out.push((li as u32, unit));
+        out.push((li as u32, unit + 2));
     }
+    // a token on a line the text does not have
+    out.push((rlines(program).len() as u32, 1));
     out
 }
 
@@ -288,13 +298,14 @@ pub fn run(run: &mut Run) -> Finish {
     // slice 2: programs of exactly 3 statements (quick: 3-name pool, thorough: full pool)
     let pool3 = tier.pick(small.clone(), full.clone());
     let st3 = statements(&pool3);
+    let max3 = tier.pick(3usize, 4);
     let ns3 = st3.len() as u64;
-    run.par_slice("programs of exactly 3 statements (quick: names {a, é, a𝒜}; thorough: all 6), every line-break placement, every subset of <= 4 candidate columns", 2, ns3.pow(3), |idx, l| {
+    run.par_slice("programs of exactly 3 statements (quick: names {a, é, a𝒜}; thorough: all 6), every line-break placement, every subset of <= 3/4 candidate columns", 2, ns3.pow(3), |idx, l| {
         let picks = seq_of(idx & ((1 << 40) - 1), ns3, 3);
         let mut sub = 0;
         for breaks in 0..4u64 {
             let p = program_of(&st3, &picks, breaks);
-            explore_program(&p, &pool3, 4, l, idx, &mut sub);
+            explore_program(&p, &pool3, max3, l, idx, &mut sub);
         }
     });
     // slice 3: crash-freedom on unaligned columns: single tokens and pairs at every column 0..=len+2
@@ -363,7 +374,7 @@ pub fn run(run: &mut Run) -> Finish {
     });
     Finish {
         level: "exploration",
-        rule: "E1: minified programs generated from a statement grammar (function declarations, var statements, calls, a non-ASCII string literal; names a, ab, é, a𝒜 (astral), $_, a<ZWJ>b; 1-3 statements, every line-break placement), with every subset of <= 4 tokens placed on identifier starts, keywords and '(' and original names attached to two of every three tokens; every token position and its successor column x every pool name + non-identifiers, through SourceMap, SourceMapIndex, SourceView, DecodedMap and a fresh view. Oracle RFuncName: nothing if the name is not an identifier; walk back from the looked-up token, token text = identifier at the token's UTF-16 column, first token whose text is the name and whose predecessor's text is 'function' yields its original name. Unaligned columns (mid-pair, whitespace, past the end, missing lines): crash-freedom only, every column. Window: name-token rank <= 126 must resolve, >= 128 must not, 127 not asserted. Distinct by construction; non-trivial = the program/map/queries contain a resolvable function pair.".into(),
+        rule: "E1: minified programs generated from a statement grammar (function declarations, var statements, calls, a non-ASCII string literal; names a, ab, é, a𝒜 (astral), $_, a<ZWJ>b; 1-3 statements, every line-break placement), with every subset of <= 4 tokens placed on identifier starts, keywords, '(' and at / past the end of each line and on a missing line and original names attached to two of every three tokens; every token position and its successor column x every pool name + non-identifiers, through SourceMap, SourceMapIndex, SourceView, DecodedMap and a fresh view. Oracle RFuncName: nothing if the name is not an identifier; walk back from the looked-up token, token text = identifier at the token's UTF-16 column, first token whose text is the name and whose predecessor's text is 'function' yields its original name. Unaligned columns (mid-pair, whitespace, past the end, missing lines): crash-freedom only, every column. Window: name-token rank <= 126 must resolve, >= 128 must not, 127 not asserted. Distinct by construction; non-trivial = the program/map/queries contain a resolvable function pair.".into(),
         assumptions: vec!["identifier classification of the model is exact for the characters used (ASCII, é, 𝒜, $, _, ZWJ, ZWNJ)".into(), "maps with several tokens at one position are not asserted (iteration order among them is unspecified)".into()],
         coverage_extra: json!({"names": names_pool()}),
     }
